@@ -39,10 +39,22 @@ ASSUMPTIONS = ["the releasing allocator object is alive (a destroyed allocator m
                "current allocator of new/delete/malloc (that would track every block twice)",
                "cpputest_realloc succeeds at the platform level (failures are property C05)",
                "LP64"]
-LEVEL_TEXT = ("Coq theorems over an executable model of deallocMemory / reallocMemory / checkForCorruption / matchingAllocation / "
-              "validMemoryCorruptionInformation / invalidateMemory on the C04 hash table and a byte memory")
-LEVEL_NOTE = "model tied to /repo by differential runs through the real global operators and by regenerated guard/poison constants"
-TECHNIQUE = "proof (Coq 8.16.1) + correspondence check"
+LEVEL_TEXT = ("Machine-checked (Coq) theorems over an executable model of MemoryLeakDetector::deallocMemory / reallocMemory / checkForCorruption / "
+              "matchingAllocation / validMemoryCorruptionInformation / addMemoryCorruptionInformation / invalidateMemory and the actualAllocator() "
+              "chains of the wrapper allocators, on top of the C04 hash table and a byte memory: for every state, address, allocator and write "
+              "sequence the reported category is exactly the property's case analysis (non-allocated iff not outstanding; else mismatch iff type "
+              "checking on and the names of the actual allocators differ; else corruption iff some guard byte differs from the pattern; else "
+              "nothing), user-byte writes never change it, every single guard byte change at every position to every other value is reported, "
+              "NULL and paired releases are silent, delete/delete[]/free hand the allocator `size` poison bytes, a reported release still removes "
+              "the record; and run_meets_spec: the model satisfies the model-free oracle on every valid scenario. Tied to the code by a "
+              "differential run through the real global operator delete/delete[], cpputest_free/realloc and MemoryLeakAllocator on a private "
+              "detector, with the extracted spec judging the implementation; guard pattern, guard size and poison byte are re-read from the source.")
+LEVEL_NOTE = ("Modelled, not verified: the C++ itself. Outside the model: a destroyed releasing allocator (hasBeenDestroyed skips all checks), "
+              "SimpleStringCacheAllocator as a callable wrapper (only its actualAllocator() body is pinned by the translator), the thread-safe "
+              "entry points (same bodies behind a mutex; their invalidate-then-dealloc shape is pinned by the translator; locking is C10), "
+              "failing platform realloc (C05), the separate/inline leak record (it only decides whether freeMemoryLeakNode is called; not part of "
+              "the observation). Trusted: Coq kernel, extraction, harness, generator, translator-lite.")
+TECHNIQUE = "Coq proof over hand-written executable model (reusing the C04 table) + extracted-model/implementation correspondence check (differential)"
 
 
 # ----------------------------------------------------------------------------- scenario text <-> structure
@@ -412,7 +424,7 @@ def generate(tier, rng):
     gen_user(tier, rng, out)
     gen_pairs(tier, rng, out)
     gen_addresses(tier, rng, out)
-    gen_random(tier, rng, out, 400 if tier == "quick" else 12000)
+    gen_random(tier, rng, out, 400 if tier == "quick" else 50000)
     bad = [s for s in out if expected(s) is None]
     assert not bad, "generator produced an invalid scenario: " + bad[0]
     return out
@@ -484,16 +496,58 @@ def signature(s, obs):
     return "total-or-other"
 
 
+def prune_descs(jump, ds, ops):
+    """drop allocator objects no operation reaches (directly or through a wrapper) and renumber"""
+    used = set()
+    for o in ops:
+        if o[0] in (":a", ":f"):
+            used.add(int(o[2], 16))
+        elif o[0] == ":r":
+            used.add(int(o[1], 16))
+    todo = list(used)
+    while todo:
+        i = todo.pop()
+        if i < len(ds) and ds[i][0] != "p" and ds[i][1] not in used:
+            used.add(ds[i][1])
+            todo.append(ds[i][1])
+    keep = sorted(i for i in used if i < len(ds))
+    if len(keep) == len(ds):
+        return None
+    ren = {old: new for new, old in enumerate(keep)}
+    nds = [ds[i] if ds[i][0] == "p" else (ds[i][0], ren[ds[i][1]]) for i in keep]
+    nops = []
+    for o in ops:
+        o = list(o)
+        if o[0] in (":a", ":f"):
+            o[2] = "%x" % ren[int(o[2], 16)]
+        elif o[0] == ":r":
+            o[1] = "%x" % ren[int(o[1], 16)]
+        nops.append(o)
+    return unparse(jump, nds, nops)
+
+
 def shrink(s):
     jump, ds, ops = parse(s)
+    c = prune_descs(jump, ds, ops)
+    if c:
+        yield c
     # drop one operation
     for i in range(len(ops)):
         yield unparse(jump, ds, ops[:i] + ops[i + 1:])
     if jump:
         yield unparse(0, ds, ops)
-    # smaller writes, smaller blocks are not attempted blindly: sizes shift the guard address; shorten write payloads from the front/back
+    # shorter write payloads (from the back / from the front)
     for i, o in enumerate(ops):
         if o[0] == ":w" and len(o[2]) > 3:
             b = bytes.fromhex(o[2][1:])
             yield unparse(jump, ds, ops[:i] + [[":w", o[1], tb(b[:-1])]] + ops[i + 1:])
             yield unparse(jump, ds, ops[:i] + [[":w", "%x" % (int(o[1], 16) + 1), tb(b[1:])]] + ops[i + 1:])
+    # a release through a wrapper / second object replaced by the plain allocator it stands for
+    for i, o in enumerate(ops):
+        k = 2 if o[0] in (":a", ":f") else 1 if o[0] == ":r" else None
+        if k is not None:
+            al = int(o[k], 16)
+            if al < len(ds) and ds[al][0] == "k":
+                o2 = list(o)
+                o2[k] = "%x" % ds[al][1]
+                yield unparse(jump, ds, ops[:i] + [o2] + ops[i + 1:])
